@@ -1,13 +1,708 @@
-//! c10: bounded stand-in (E3) -- see DESIGN.md section 5
-#![allow(dead_code, unused_imports)]
+//! C10: renumbering objects preserves the document graph (bounded-exhaustive executable postcondition, E3).
+//!
+//! Code under test: `Document::renumber_objects_with(start)` (and `renumber_objects` = start 1) of the real crate.
+//! Oracle (written from the property statement, it never calls the renumbering code): after the call
+//!   * the object count is unchanged, the object numbers are exactly start, start+1, .., start+n-1 (each once) and
+//!     `max_id` = start+n-1;
+//!   * a renaming rho is *discovered* by walking the old and the new document in lock step from the trailer: at every
+//!     position the two values must be equal, except that a reference to an existing old object `r` must have become a
+//!     reference to an existing new object, which defines rho(r) (must be consistent = a function, and injective); the
+//!     pair (r, rho(r)) is then compared the same way. A reference that resolved to nothing must still resolve to nothing;
+//!   * the page list (library observer `get_pages`, and an independent depth-first walk written here) of the new document
+//!     is the old page list mapped through rho;
+//!   * bookmark structure is unchanged and every bookmark target is rho(old target) (a target outside the trailer-reachable
+//!     part extends rho and is compared too); a dangling target (also the conventional (0,0)) stays dangling;
+//!   * the objects outside the matched part are the same multiset once references are erased ("changes identifiers only").
+#![allow(dead_code)]
+use crate::c03::{obj_from_json, obj_json};
 use crate::common::*;
-use crate::gen::*;
+use crate::gen::{dict, name};
+use lopdf::{Bookmark, Dictionary, Document, Object, ObjectId, Stream};
+use rayon::prelude::*;
 use serde_json::{json, Value};
+use std::collections::{BTreeMap, VecDeque};
 
-pub fn run(_thorough: bool) -> Report {
-    Report::new("not built yet", false)
+// ---------------------------------------------------------------------------------------------------------------------
+// cases
+// ---------------------------------------------------------------------------------------------------------------------
+
+/// one fully concrete input: a document (objects, trailer, bookmarks) and a start value
+#[derive(Clone, Debug)]
+pub struct Case {
+    pub objects: Vec<(ObjectId, Object)>,
+    pub trailer: Dictionary,
+    /// (target, index of the parent bookmark in this list)
+    pub bookmarks: Vec<(ObjectId, Option<usize>)>,
+    pub start: u32,
+    /// "" for the main family; a suffix put on obligation names for the sub-families that stretch the reading of the
+    /// quantifier (start 0, start near u32::MAX, two objects with one number and different generations)
+    pub tag: String,
 }
 
-pub fn replay(_v: &Value) -> Result<(), String> {
-    Err("no replay".into())
+pub fn build_doc(c: &Case) -> Document {
+    let mut doc = Document::with_version("1.5");
+    let mut maxid = 0;
+    for (id, o) in &c.objects {
+        doc.objects.insert(*id, o.clone());
+        maxid = maxid.max(id.0);
+    }
+    doc.max_id = maxid;
+    doc.trailer = c.trailer.clone();
+    let mut bids: Vec<u32> = vec![];
+    for (i, (page, parent)) in c.bookmarks.iter().enumerate() {
+        let id = doc.add_bookmark(Bookmark::new(format!("b{}", i), [0.0, 0.0, 0.0], 0, *page), parent.map(|p| bids[p]));
+        bids.push(id);
+    }
+    doc
+}
+
+pub fn case_json(c: &Case) -> Value {
+    json!({
+        "objects": c.objects.iter().map(|(id, o)| json!({"id": id.0, "gen": id.1, "obj": obj_json(o)})).collect::<Vec<_>>(),
+        "trailer": obj_json(&Object::Dictionary(c.trailer.clone())),
+        "bookmarks": c.bookmarks.iter().map(|(p, par)| json!({"page": [p.0, p.1], "parent": par})).collect::<Vec<_>>(),
+        "start": c.start,
+        "tag": c.tag,
+    })
+}
+
+pub fn case_from_json(v: &Value) -> Case {
+    let trailer = match obj_from_json(&v["trailer"]) { Object::Dictionary(d) => d, _ => Dictionary::new() };
+    Case {
+        objects: v["objects"].as_array().cloned().unwrap_or_default().iter()
+            .map(|e| ((e["id"].as_u64().unwrap_or(0) as u32, e["gen"].as_u64().unwrap_or(0) as u16), obj_from_json(&e["obj"]))).collect(),
+        trailer,
+        bookmarks: v["bookmarks"].as_array().cloned().unwrap_or_default().iter()
+            .map(|e| ((e["page"][0].as_u64().unwrap_or(0) as u32, e["page"][1].as_u64().unwrap_or(0) as u16), e["parent"].as_u64().map(|p| p as usize))).collect(),
+        start: v["start"].as_u64().unwrap_or(1) as u32,
+        tag: v["tag"].as_str().unwrap_or("").to_string(),
+    }
+}
+
+fn describe(c: &Case) -> String {
+    let mut t = format!("start={} trailer={:?} bookmarks={:?} objs=[", c.start, c.trailer, c.bookmarks);
+    for (id, o) in &c.objects { t.push_str(&format!("{} {}: {:?}; ", id.0, id.1, o)); }
+    t.push(']');
+    if t.len() > 700 { t.truncate(700); }
+    t
+}
+
+// ---------------------------------------------------------------------------------------------------------------------
+// oracle
+// ---------------------------------------------------------------------------------------------------------------------
+
+struct Oracle<'a> {
+    b: &'a Document,
+    a: &'a Document,
+    rho: BTreeMap<ObjectId, ObjectId>,
+    inv: BTreeMap<ObjectId, ObjectId>,
+    queue: VecDeque<(ObjectId, ObjectId)>,
+    fails: Vec<(String, String)>,
+    via_bookmark: bool,
+    ctx: Option<(ObjectId, ObjectId)>,
+}
+
+impl<'a> Oracle<'a> {
+    fn fail(&mut self, obl: &str, detail: String) {
+        let obl = if self.via_bookmark { "bookmark-target-content" } else { obl };
+        if !self.fails.iter().any(|f| f.0 == obl) {
+            let place = match self.ctx { None => "trailer".to_string(), Some((kb, ka)) => format!("old object {} {} / new object {} {}", kb.0, kb.1, ka.0, ka.1) };
+            self.fails.push((obl.to_string(), format!("{} (in {})", detail, place)));
+        }
+    }
+
+    /// rho(rb) = ra; false if that contradicts what is already known
+    fn bind(&mut self, rb: ObjectId, ra: ObjectId) -> bool {
+        match (self.rho.get(&rb).copied(), self.inv.get(&ra).copied()) {
+            (Some(x), _) if x != ra => {
+                self.fail("renaming-one-to-one", format!("old id {:?} is renamed to {:?} in one place and to {:?} in another", rb, x, ra));
+                false
+            }
+            (Some(_), _) => true,
+            (None, Some(y)) => {
+                self.fail("renaming-one-to-one", format!("new id {:?} stands for old {:?} in one place and for old {:?} in another", ra, y, rb));
+                false
+            }
+            (None, None) => {
+                self.rho.insert(rb, ra);
+                self.inv.insert(ra, rb);
+                self.queue.push_back((rb, ra));
+                true
+            }
+        }
+    }
+
+    fn cmp_dict(&mut self, x: &Dictionary, y: &Dictionary) {
+        if x.len() != y.len() {
+            self.fail("content-equal", format!("dictionary {:?} became {:?}", x, y));
+            return;
+        }
+        for (k, vb) in x.iter() {
+            match y.get(k) {
+                Ok(va) => self.cmp(vb, va),
+                Err(_) => { self.fail("content-equal", format!("key {:?} lost: {:?} became {:?}", String::from_utf8_lossy(k), x, y)); }
+            }
+        }
+    }
+
+    fn cmp(&mut self, ob: &Object, oa: &Object) {
+        match (ob, oa) {
+            (Object::Reference(rb), Object::Reference(ra)) => {
+                let was_live = self.b.objects.contains_key(rb);
+                let is_live = self.a.objects.contains_key(ra);
+                if was_live {
+                    if !is_live {
+                        self.fail("reference-resolves", format!("reference {:?} resolved before, its counterpart {:?} resolves to nothing", rb, ra));
+                    } else {
+                        self.bind(*rb, *ra);
+                    }
+                } else if is_live {
+                    self.fail("dangling-stays-dangling", format!("reference {:?} resolved to nothing before; afterwards it reads {:?} and resolves to {:?}", rb, ra, self.a.objects.get(ra)));
+                }
+            }
+            (Object::Array(x), Object::Array(y)) => {
+                if x.len() != y.len() { self.fail("content-equal", format!("array {:?} became {:?}", x, y)); return; }
+                for (p, q) in x.iter().zip(y.iter()) { self.cmp(p, q); }
+            }
+            (Object::Dictionary(x), Object::Dictionary(y)) => self.cmp_dict(x, y),
+            (Object::Stream(x), Object::Stream(y)) => {
+                if x.content != y.content { self.fail("content-equal", "stream content changed".to_string()); }
+                self.cmp_dict(&x.dict, &y.dict);
+            }
+            (Object::Reference(_), _) | (_, Object::Reference(_)) | (Object::Array(_), _) | (Object::Dictionary(_), _) | (Object::Stream(_), _) => {
+                self.fail("content-equal", format!("{:?} became {:?}", ob, oa));
+            }
+            _ => { if ob != oa { self.fail("content-equal", format!("{:?} became {:?}", ob, oa)); } }
+        }
+    }
+
+    fn drain(&mut self) {
+        while let Some((kb, ka)) = self.queue.pop_front() {
+            self.ctx = Some((kb, ka));
+            let (b, a) = (self.b, self.a);
+            if let (Some(ob), Some(oa)) = (b.objects.get(&kb), a.objects.get(&ka)) { self.cmp(ob, oa); }
+        }
+        self.ctx = None;
+    }
+}
+
+/// follow reference chains (as the library's accessors do), bounded
+fn resolve<'d>(doc: &'d Document, mut o: &'d Object) -> Option<&'d Object> {
+    for _ in 0..32 {
+        match o { Object::Reference(id) => { o = doc.objects.get(id)?; } _ => return Some(o) }
+    }
+    None
+}
+
+fn resolve_dict<'d>(doc: &'d Document, id: ObjectId) -> Option<&'d Dictionary> {
+    match resolve(doc, doc.objects.get(&id)?)? { Object::Dictionary(d) => Some(d), Object::Stream(s) => Some(&s.dict), _ => None }
+}
+
+/// independent page walk: depth-first over /Kids from the catalog's /Pages; None if the tree is cyclic (then only the
+/// library's bounded iterator defines an order)
+fn model_pages(doc: &Document) -> Option<Vec<ObjectId>> {
+    fn walk(doc: &Document, node: ObjectId, path: &mut Vec<ObjectId>, out: &mut Vec<ObjectId>) -> bool {
+        let d = match resolve_dict(doc, node) { Some(d) => d, None => return true };
+        let kids = match d.get(b"Kids").ok().and_then(|k| resolve(doc, k)) { Some(Object::Array(k)) => k, _ => return true };
+        for kid in kids {
+            if let Object::Reference(kid_id) = kid {
+                if let Some(kd) = resolve_dict(doc, *kid_id) {
+                    match kd.get(b"Type") {
+                        Ok(Object::Name(n)) if n == b"Page" => out.push(*kid_id),
+                        Ok(Object::Name(n)) if n == b"Pages" => {
+                            if path.contains(kid_id) || path.len() > 16 { return false; }
+                            path.push(*kid_id);
+                            let ok = walk(doc, *kid_id, path, out);
+                            path.pop();
+                            if !ok { return false; }
+                        }
+                        _ => {}
+                    }
+                }
+            }
+        }
+        true
+    }
+    let root = match doc.trailer.get(b"Root") { Ok(Object::Reference(id)) => *id, _ => return Some(vec![]) };
+    let cat = match resolve(doc, doc.objects.get(&root)?)? { Object::Dictionary(d) => d, _ => return Some(vec![]) };
+    let pages = match cat.get(b"Pages") { Ok(Object::Reference(id)) => *id, _ => return Some(vec![]) };
+    let mut out = vec![];
+    let mut path = vec![pages];
+    if walk(doc, pages, &mut path, &mut out) { Some(out) } else { None }
+}
+
+fn erase_refs(o: &Object) -> Object {
+    match o {
+        Object::Reference(_) => Object::Null,
+        Object::Array(a) => Object::Array(a.iter().map(erase_refs).collect()),
+        Object::Dictionary(d) => { let mut n = Dictionary::new(); for (k, v) in d.iter() { n.set(k.clone(), erase_refs(v)); } Object::Dictionary(n) }
+        Object::Stream(s) => { let mut n = Dictionary::new(); for (k, v) in s.dict.iter() { n.set(k.clone(), erase_refs(v)); } let mut t = Stream::new(Dictionary::new(), s.content.clone()); t.dict = n; Object::Stream(t) }
+        other => other.clone(),
+    }
+}
+
+/// the executable postcondition: all violated obligations (at most one entry per obligation)
+pub fn postcondition(b: &Document, a: &Document, start: u32) -> Vec<(String, String)> {
+    let mut o = Oracle { b, a, rho: BTreeMap::new(), inv: BTreeMap::new(), queue: VecDeque::new(), fails: vec![], via_bookmark: false, ctx: None };
+    let n = b.objects.len() as u64;
+    // 1. identifiers
+    if a.objects.len() as u64 != n {
+        o.fail("object-count", format!("{} objects before, {} afterwards (new ids {:?})", n, a.objects.len(), a.objects.keys().collect::<Vec<_>>()));
+    }
+    let mut nums: Vec<u64> = a.objects.keys().map(|k| k.0 as u64).collect();
+    nums.sort_unstable();
+    let want: Vec<u64> = (0..a.objects.len() as u64).map(|i| start as u64 + i).collect();
+    if nums != want {
+        o.fail("ids-consecutive", format!("object numbers afterwards {:?}, expected {:?}", nums, want));
+    }
+    if start as u64 + n >= 1 {
+        let last = start as u64 + n - 1;
+        if a.max_id as u64 != last { o.fail("max-id", format!("max_id {} but the last number is {}", a.max_id, last)); }
+    }
+    // 2. the graph, from the trailer
+    o.cmp_dict(&b.trailer, &a.trailer);
+    o.drain();
+    // 3. page order
+    let lib_before: Vec<ObjectId> = b.get_pages().values().copied().collect();
+    let lib_after: Vec<ObjectId> = a.get_pages().values().copied().collect();
+    let model_before = model_pages(b);
+    let expect_from = model_before.clone().unwrap_or_else(|| lib_before.clone());
+    let mapped: Option<Vec<ObjectId>> = expect_from.iter().map(|p| o.rho.get(p).copied()).collect();
+    match mapped {
+        Some(exp) => {
+            if lib_after != exp {
+                o.fail("page-order", format!("pages before {:?}; expected afterwards {:?} (renamed), get_pages gives {:?}", expect_from, exp, lib_after));
+            } else if model_before.is_some() {
+                match model_pages(a) {
+                    Some(m) if m == exp => {}
+                    other => o.fail("page-order", format!("pages before {:?}; expected afterwards {:?}, depth-first walk of the new tree gives {:?}", expect_from, exp, other)),
+                }
+            }
+        }
+        None => { if o.fails.is_empty() { o.fail("page-order", format!("a page of {:?} has no counterpart although the graphs matched", expect_from)); } }
+    }
+    // 4. bookmarks
+    if b.bookmarks != a.bookmarks || b.bookmark_table.len() != a.bookmark_table.len() || b.max_bookmark_id != a.max_bookmark_id {
+        o.fail("bookmark-structure", format!("bookmark list {:?} became {:?}", b.bookmarks, a.bookmarks));
+    }
+    let mut bids: Vec<u32> = b.bookmark_table.keys().copied().collect();
+    bids.sort_unstable();
+    let mut late: Vec<(ObjectId, ObjectId)> = vec![];
+    for id in bids {
+        let (bb, ba) = match (b.bookmark_table.get(&id), a.bookmark_table.get(&id)) { (Some(x), Some(y)) => (x, y), _ => { o.fail("bookmark-structure", format!("bookmark {} lost", id)); continue; } };
+        if bb.children != ba.children || bb.title != ba.title || bb.format != ba.format || bb.color != ba.color || bb.id != ba.id {
+            o.fail("bookmark-structure", format!("bookmark {} changed apart from its target", id));
+        }
+        let was_live = b.objects.contains_key(&bb.page);
+        let is_live = a.objects.contains_key(&ba.page);
+        if was_live {
+            match o.rho.get(&bb.page).copied() {
+                Some(r) => { if r != ba.page { o.fail("bookmark-target", format!("bookmark {} pointed to {:?}, which is now {:?}, but the bookmark says {:?}", id, bb.page, r, ba.page)); } }
+                None => {
+                    if !is_live { o.fail("bookmark-target", format!("bookmark {} pointed to existing {:?}, now to missing {:?}", id, bb.page, ba.page)); }
+                    else if let Some(y) = o.inv.get(&ba.page).copied() { o.fail("bookmark-target", format!("bookmark {} pointed to {:?}, now to {:?} which is old {:?}", id, bb.page, ba.page, y)); }
+                    else { late.push((bb.page, ba.page)); }
+                }
+            }
+        } else if is_live {
+            o.fail("bookmark-dangling", format!("bookmark {} pointed to nothing ({:?}); afterwards {:?} is {:?}", id, bb.page, ba.page, a.objects.get(&ba.page)));
+        }
+    }
+    // bookmark targets outside the trailer-reachable part: extend rho, compare their content as well
+    for (pb, pa) in late {
+        if !o.bind(pb, pa) {
+            // two bookmarks disagree about an unreachable target
+            let f = o.fails.iter().position(|f| f.0 == "renaming-one-to-one");
+            if let Some(i) = f { let d = o.fails[i].1.clone(); o.fails.remove(i); o.fail("bookmark-target", d); }
+        }
+    }
+    o.via_bookmark = true;
+    o.drain();
+    o.via_bookmark = false;
+    // 5. the rest: same objects up to references
+    let mut rest_b: Vec<String> = b.objects.iter().filter(|(k, _)| !o.rho.contains_key(k)).map(|(_, v)| format!("{:?}", erase_refs(v))).collect();
+    let mut rest_a: Vec<String> = a.objects.iter().filter(|(k, _)| !o.inv.contains_key(k)).map(|(_, v)| format!("{:?}", erase_refs(v))).collect();
+    rest_b.sort();
+    rest_a.sort();
+    if rest_b != rest_a && o.fails.iter().all(|f| f.0 == "max-id" || f.0 == "ids-consecutive") {
+        o.fail("unreachable-content", format!("objects not reachable from the trailer (references erased) before {:?}, afterwards {:?}", rest_b, rest_a));
+    }
+    o.fails
+}
+
+/// run the real library on one case and evaluate the postcondition
+pub fn check_case(c: &Case) -> Vec<(String, String)> {
+    let before = build_doc(c);
+    let mut after = before.clone();
+    let start = c.start;
+    let r = guarded(std::panic::AssertUnwindSafe(|| {
+        if start == 1 { after.renumber_objects(); } else { after.renumber_objects_with(start); }
+    }));
+    let mut fails = match r {
+        Err(p) => vec![("no-panic".to_string(), format!("renumber_objects_with({}) panicked: {}", start, p))],
+        Ok(()) => match guarded(std::panic::AssertUnwindSafe(|| postcondition(&before, &after, start))) {
+            Ok(f) => f,
+            Err(p) => vec![("oracle-no-panic".to_string(), format!("evaluating the postcondition panicked: {}", p))],
+        },
+    };
+    for f in fails.iter_mut() { f.0.push_str(&c.tag); }
+    fails
+}
+
+// ---------------------------------------------------------------------------------------------------------------------
+// the enumerated family
+// ---------------------------------------------------------------------------------------------------------------------
+
+const SLOT: u32 = 1_000_000;
+const DANG: u32 = 2_000_000;
+fn sid(i: usize) -> ObjectId { (SLOT + i as u32, 0) }
+fn did(k: usize) -> ObjectId { (DANG + k as u32, 0) }
+fn s(i: usize) -> Object { Object::Reference(sid(i)) }
+fn d(k: usize) -> Object { Object::Reference(did(k)) }
+
+/// a document with abstract nodes ("slots") and abstract dangling ids, to be given concrete ids
+#[derive(Clone)]
+struct Template {
+    label: String,
+    objs: Vec<Object>,
+    trailer: Dictionary,
+    bookmark_sets: Vec<Vec<(ObjectId, Option<usize>)>>,
+}
+
+fn map_id(id: ObjectId, ids: &[ObjectId], dang: &[ObjectId]) -> ObjectId {
+    if id.0 >= DANG { dang[(id.0 - DANG) as usize] } else if id.0 >= SLOT { ids[(id.0 - SLOT) as usize] } else { id }
+}
+
+fn inst(o: &Object, ids: &[ObjectId], dang: &[ObjectId]) -> Object {
+    match o {
+        Object::Reference(id) => Object::Reference(map_id(*id, ids, dang)),
+        Object::Array(a) => Object::Array(a.iter().map(|x| inst(x, ids, dang)).collect()),
+        Object::Dictionary(dd) => Object::Dictionary(inst_dict(dd, ids, dang)),
+        Object::Stream(st) => { let mut t = Stream::new(Dictionary::new(), st.content.clone()); t.dict = inst_dict(&st.dict, ids, dang); Object::Stream(t) }
+        other => other.clone(),
+    }
+}
+
+fn inst_dict(dd: &Dictionary, ids: &[ObjectId], dang: &[ObjectId]) -> Dictionary {
+    let mut n = Dictionary::new();
+    for (k, v) in dd.iter() { n.set(k.clone(), inst(v, ids, dang)); }
+    n
+}
+
+fn instantiate(t: &Template, bm: usize, ids: &[ObjectId], dang: &[ObjectId], start: u32, tag: &str) -> Case {
+    Case {
+        objects: t.objs.iter().enumerate().map(|(i, o)| (ids[i], inst(o, ids, dang))).collect(),
+        trailer: inst_dict(&t.trailer, ids, dang),
+        bookmarks: t.bookmark_sets[bm].iter().map(|(p, par)| (map_id(*p, ids, dang), *par)).collect(),
+        start,
+        tag: tag.to_string(),
+    }
+}
+
+/// the three id sets for n objects (sorted): dense from 1; sparse with non-zero generations; one with number clashes
+fn id_set(which: usize, n: usize) -> Vec<ObjectId> {
+    match which {
+        0 => (1..=n as u32).map(|k| (k, 0)).collect(),
+        1 => { let nums = [2u32, 3, 5, 8, 9, 12, 13, 20]; let gens = [0u16, 1, 0, 0, 2, 0, 1, 0]; (0..n).map(|i| (nums[i], gens[i])).collect() }
+        _ => { let all = [(1u32, 0u16), (3, 0), (3, 1), (4, 0), (6, 0), (6, 1), (7, 0), (9, 0)]; all[..n].to_vec() }
+    }
+}
+
+fn id_set_tag(which: usize, n: usize) -> &'static str { if which == 2 && n >= 3 { "[same-number-gens]" } else { "" } }
+
+/// three ids that are absent from the set: the smallest free number (falls into the new range for small starts),
+/// an existing number with a wrong generation, a number beyond the largest
+fn dangling_for(ids: &[ObjectId]) -> Vec<ObjectId> {
+    let mut k = 1u32;
+    while ids.iter().any(|i| i.0 == k) { k += 1; }
+    let first = ids.first().copied().unwrap_or((1, 0));
+    let mut g = first.1 + 1;
+    while ids.contains(&(first.0, g)) { g += 1; }
+    let max = ids.iter().map(|i| i.0).max().unwrap_or(0);
+    vec![(k, 0), (first.0, g), (max + 3, 0)]
+}
+
+fn permutations(n: usize) -> Vec<Vec<usize>> {
+    fn rec(cur: &mut Vec<usize>, used: &mut Vec<bool>, n: usize, out: &mut Vec<Vec<usize>>) {
+        if cur.len() == n { out.push(cur.clone()); return; }
+        for i in 0..n { if !used[i] { used[i] = true; cur.push(i); rec(cur, used, n, out); cur.pop(); used[i] = false; } }
+    }
+    let mut out = vec![];
+    rec(&mut vec![], &mut vec![false; n], n, &mut out);
+    out
+}
+
+// ---- family A: page trees ------------------------------------------------------------------------------------------
+
+fn catalog(pages: usize) -> Object { Object::Dictionary(dict(vec![(b"Type", name(b"Catalog")), (b"Pages", s(pages))])) }
+fn pages_node(parent: Option<usize>, kids: Object, count: i64) -> Object {
+    let mut v: Vec<(&[u8], Object)> = vec![(b"Type", name(b"Pages")), (b"Kids", kids), (b"Count", Object::Integer(count))];
+    if let Some(p) = parent { v.push((b"Parent", s(p))); }
+    Object::Dictionary(dict(v))
+}
+fn page(parent: usize, contents: Option<Object>) -> Object {
+    let mut v: Vec<(&[u8], Object)> = vec![(b"Type", name(b"Page")), (b"Parent", s(parent)), (b"MediaBox", Object::Array(vec![Object::Integer(0), Object::Integer(0), Object::Integer(10), Object::Real(10.5)]))];
+    if let Some(c) = contents { v.push((b"Contents", c)); }
+    Object::Dictionary(dict(v))
+}
+fn arr(v: Vec<Object>) -> Object { Object::Array(v) }
+
+fn page_bookmark_sets(pages: &[usize]) -> Vec<Vec<(ObjectId, Option<usize>)>> {
+    if pages.is_empty() {
+        return vec![vec![], vec![(did(0), None), ((0, 0), None)]];
+    }
+    let flat: Vec<(ObjectId, Option<usize>)> = pages.iter().map(|p| (sid(*p), None)).chain(std::iter::once((did(0), None))).collect();
+    let nested: Vec<(ObjectId, Option<usize>)> = pages.iter().rev().enumerate().map(|(i, p)| (sid(*p), if i == 0 { None } else { Some(i - 1) })).collect();
+    let mut zero: Vec<(ObjectId, Option<usize>)> = vec![((0, 0), None)];
+    for p in pages { zero.push((sid(*p), Some(0))); }
+    zero.push((sid(pages[0]), None));
+    vec![vec![], flat, nested, zero]
+}
+
+fn page_templates(thorough: bool) -> Vec<Template> {
+    let root_trailer = || dict(vec![(b"Root", s(0))]);
+    let mut v = vec![];
+    let mut add = |label: &str, objs: Vec<Object>, trailer: Dictionary, pages: &[usize]| {
+        v.push(Template { label: label.to_string(), objs, trailer, bookmark_sets: page_bookmark_sets(pages) });
+    };
+    add("T0 no pages", vec![catalog(1), pages_node(None, arr(vec![]), 0)], root_trailer(), &[]);
+    add("T1 [p]", vec![catalog(1), pages_node(None, arr(vec![s(2)]), 1), page(1, None)], root_trailer(), &[2]);
+    add("T2 [p,p] + trailer array referencing page 2",
+        vec![catalog(1), pages_node(None, arr(vec![s(2), s(3)]), 2), page(1, None), page(1, None)],
+        dict(vec![(b"Root", s(0)), (b"Open", arr(vec![s(3), name(b"Fit")]))]), &[2, 3]);
+    add("T3 [p,p,p]", vec![catalog(1), pages_node(None, arr(vec![s(2), s(3), s(4)]), 3), page(1, None), page(1, None), page(1, None)], root_trailer(), &[2, 3, 4]);
+    add("T4 [p,[p,p]]", vec![catalog(1), pages_node(None, arr(vec![s(2), s(3)]), 3), page(1, None), pages_node(Some(1), arr(vec![s(4), s(5)]), 2), page(3, None), page(3, None)], root_trailer(), &[2, 4, 5]);
+    add("T5 [[p,p],p]", vec![catalog(1), pages_node(None, arr(vec![s(2), s(5)]), 3), pages_node(Some(1), arr(vec![s(3), s(4)]), 2), page(2, None), page(2, None), page(1, None)], root_trailer(), &[3, 4, 5]);
+    add("T6 [[p],[p]]", vec![catalog(1), pages_node(None, arr(vec![s(2), s(3)]), 2), pages_node(Some(1), arr(vec![s(4)]), 1), pages_node(Some(1), arr(vec![s(5)]), 1), page(2, None), page(3, None)], root_trailer(), &[4, 5]);
+    add("T7 [p1,p2,p1] shared kid", vec![catalog(1), pages_node(None, arr(vec![s(2), s(3), s(2)]), 3), page(1, None), page(1, None)], root_trailer(), &[2, 3]);
+    add("T8 [p, dangling, p]", vec![catalog(1), pages_node(None, arr(vec![s(2), d(0), s(3)]), 2), page(1, None), page(1, None)], root_trailer(), &[2, 3]);
+    add("T9 [p,[p,root]] cyclic kids", vec![catalog(1), pages_node(None, arr(vec![s(2), s(3)]), 2), page(1, None), pages_node(Some(1), arr(vec![s(4), s(1)]), 1), page(3, None)], root_trailer(), &[2, 4]);
+    add("T10 Kids is an indirect array", vec![catalog(1), pages_node(None, s(2), 2), arr(vec![s(3), s(4)]), page(1, None), page(1, None)], root_trailer(), &[3, 4]);
+    let x = |owner: usize| { let mut st = Stream::new(Dictionary::new(), b"q Q".to_vec()); st.dict = dict(vec![(b"Owner", s(owner)), (b"Missing", d(1))]); Object::Stream(st) };
+    add("T2X two pages share a stream that points back and has a dangling ref",
+        vec![catalog(1), pages_node(None, arr(vec![s(2), s(3)]), 2), page(1, Some(s(4))), page(1, Some(arr(vec![s(4)]))), x(2)], root_trailer(), &[2, 3]);
+    add("T3X three pages, first and last share a stream",
+        vec![catalog(1), pages_node(None, arr(vec![s(2), s(3), s(4)]), 3), page(1, Some(s(5))), page(1, None), page(1, Some(arr(vec![s(5), d(0)]))), x(2)], root_trailer(), &[2, 3, 4]);
+    add("T2U two pages and an unreachable object referencing a page",
+        vec![catalog(1), pages_node(None, arr(vec![s(2), s(3)]), 2), page(1, None), page(1, None), Object::Dictionary(dict(vec![(b"Ref", s(2)), (b"Other", d(0)), (b"K", Object::Integer(5))]))], root_trailer(), &[2, 3]);
+    if thorough {
+        add("T4X [p,[p,p]] + shared stream",
+            vec![catalog(1), pages_node(None, arr(vec![s(2), s(3)]), 3), page(1, Some(s(6))), pages_node(Some(1), arr(vec![s(4), s(5)]), 2), page(3, None), page(3, Some(s(6))), x(4)], root_trailer(), &[2, 4, 5]);
+    }
+    v
+}
+
+// ---- family B: general reference graphs ----------------------------------------------------------------------------
+
+const KINDS: usize = 5;
+fn kind_obj(kind: usize, r1: Object, r2: Object) -> Object {
+    match kind % KINDS {
+        0 => Object::Dictionary(dict(vec![(b"A", r1), (b"B", r2)])),
+        1 => arr(vec![r1, Object::Integer(7), arr(vec![r2])]),
+        2 => { let mut st = Stream::new(Dictionary::new(), b"x".to_vec()); st.dict = dict(vec![(b"A", r1), (b"Sub", Object::Dictionary(dict(vec![(b"B", arr(vec![r2]))])))]); Object::Stream(st) }
+        3 => Object::Dictionary(dict(vec![(b"A", arr(vec![Object::Dictionary(dict(vec![(b"B", r1)]))])), (b"C", r2), (b"Nm", name(b"N"))])),
+        _ => match r1 { Object::Null => Object::Integer(1), r => r }, // the object is itself a reference (chain)
+    }
+}
+
+#[derive(Clone)]
+struct SubB {
+    n: usize,
+    two_pos: bool,
+    ndang: usize,
+    all_perms: bool,
+    idsets: Vec<usize>,
+    starts: Vec<u32>,
+    rots: Vec<usize>,
+    trailers: Vec<usize>,
+    bms: Vec<usize>,
+}
+
+impl SubB {
+    fn nchoice(&self) -> usize { 1 + self.n + self.ndang }
+    fn positions(&self) -> usize { if self.two_pos { 2 * self.n } else { self.n } }
+    fn codes(&self) -> u64 { (self.nchoice() as u64).pow(self.positions() as u32) }
+    fn perms(&self) -> Vec<Vec<usize>> {
+        if self.all_perms { permutations(self.n) } else if self.n < 2 { vec![(0..self.n).collect()] } else { vec![(0..self.n).collect(), (0..self.n).rev().collect()] }
+    }
+    fn per_code(&self) -> u64 { (self.perms().len() * self.idsets.len() * self.starts.len() * self.rots.len() * self.trailers.len() * self.bms.len()) as u64 }
+    fn describe(&self) -> String {
+        format!("n={} objects, {} reference position(s) per object each in {{none, every object, {} dangling id(s)}} ({} graphs) x {} slot->id permutations x id sets {:?} x starts {:?} x container rotations {:?} x trailer shapes {:?} x bookmark sets {:?}",
+            self.n, if self.two_pos { 2 } else { 1 }, self.ndang, self.codes(), self.perms().len(), self.idsets, self.starts, self.rots, self.trailers, self.bms)
+    }
+}
+
+fn choice(c: usize, n: usize) -> Object { if c == 0 { Object::Null } else if c <= n { s(c - 1) } else { d(c - n - 1) } }
+
+fn graph_template(sub: &SubB, mut code: u64, rot: usize, trailer: usize, ) -> Template {
+    let n = sub.n;
+    let nc = sub.nchoice() as u64;
+    let mut objs = vec![];
+    for i in 0..n {
+        let r1 = choice((code % nc) as usize, n); code /= nc;
+        let r2 = if sub.two_pos { let c = choice((code % nc) as usize, n); code /= nc; c } else { Object::Null };
+        objs.push(kind_obj(i + rot, r1, r2));
+    }
+    let last = n.saturating_sub(1);
+    let tr = if n == 0 { Dictionary::new() } else {
+        match trailer {
+            0 => dict(vec![(b"Root", s(0))]),
+            1 => dict(vec![(b"Root", s(0)), (b"Info", s(last))]),
+            2 => dict(vec![(b"Root", s(0)), (b"Info", d(0))]),
+            _ => dict(vec![(b"Root", s(0)), (b"Extra", arr(vec![s(last), Object::Dictionary(dict(vec![(b"X", d(1))]))]))]),
+        }
+    };
+    let mut flat: Vec<(ObjectId, Option<usize>)> = (0..n).map(|i| (sid(i), None)).collect();
+    flat.push((did(0), if n > 0 { Some(0) } else { None }));
+    Template { label: "graph".into(), objs, trailer: tr, bookmark_sets: vec![vec![], flat] }
+}
+
+fn sub_families(thorough: bool) -> Vec<SubB> {
+    let st_full: Vec<u32> = vec![1, 2, 3, 7, 100];
+    if thorough {
+        vec![
+            SubB { n: 0, two_pos: false, ndang: 0, all_perms: true, idsets: vec![0], starts: vec![1, 2, 7], rots: vec![0], trailers: vec![0], bms: vec![0, 1] },
+            SubB { n: 1, two_pos: true, ndang: 2, all_perms: true, idsets: vec![0, 1, 2], starts: st_full.clone(), rots: (0..KINDS).collect(), trailers: vec![0, 1, 2, 3], bms: vec![0, 1] },
+            SubB { n: 2, two_pos: true, ndang: 2, all_perms: true, idsets: vec![0, 1, 2], starts: st_full.clone(), rots: (0..KINDS).collect(), trailers: vec![0, 1, 2, 3], bms: vec![0, 1] },
+            SubB { n: 3, two_pos: false, ndang: 2, all_perms: true, idsets: vec![0, 1, 2], starts: st_full.clone(), rots: (0..KINDS).collect(), trailers: vec![0, 1, 2, 3], bms: vec![0, 1] },
+            SubB { n: 3, two_pos: true, ndang: 2, all_perms: true, idsets: vec![0, 1, 2], starts: vec![1, 2], rots: vec![0], trailers: vec![0], bms: vec![0] },
+            SubB { n: 4, two_pos: false, ndang: 2, all_perms: true, idsets: vec![0, 1, 2], starts: vec![1, 2, 7], rots: vec![0], trailers: vec![0, 3], bms: vec![0, 1] },
+        ]
+    } else {
+        vec![
+            SubB { n: 0, two_pos: false, ndang: 0, all_perms: true, idsets: vec![0], starts: vec![1, 2, 7], rots: vec![0], trailers: vec![0], bms: vec![0, 1] },
+            SubB { n: 1, two_pos: true, ndang: 2, all_perms: true, idsets: vec![0, 1], starts: vec![1, 2, 7], rots: (0..KINDS).collect(), trailers: vec![0, 2], bms: vec![0, 1] },
+            SubB { n: 2, two_pos: true, ndang: 2, all_perms: true, idsets: vec![0, 1, 2], starts: vec![1, 2, 7], rots: vec![0, 2, 4], trailers: vec![1, 3], bms: vec![0, 1] },
+            SubB { n: 3, two_pos: false, ndang: 2, all_perms: true, idsets: vec![1, 2], starts: vec![1, 2], rots: vec![0, 3], trailers: vec![0, 3], bms: vec![0, 1] },
+            SubB { n: 3, two_pos: true, ndang: 1, all_perms: false, idsets: vec![1], starts: vec![1], rots: vec![0], trailers: vec![0], bms: vec![0] },
+        ]
+    }
+}
+
+// ---- blocks (units of parallel work) ---------------------------------------------------------------------------------
+
+enum Block {
+    /// page-tree template x id set x permutation; inner: starts x bookmark sets
+    A { t: usize, idset: usize, perm: Vec<usize>, extreme: bool },
+    /// graph sub-family x edge code; inner: everything else
+    B { sub: usize, code: u64 },
+    /// extreme start values on small graphs
+    E { sub: usize, code: u64 },
+}
+
+fn extreme_starts(n: usize) -> Vec<(u32, &'static str)> {
+    let n = n as u32;
+    let mut v = vec![(0u32, "[start=0]")];
+    if n == 0 {
+        v.push((5, ""));
+        v.push((u32::MAX, "[start-near-u32-max]"));
+    } else {
+        v.push((u32::MAX - n, "[start-near-u32-max]"));      // last number u32::MAX - 1
+        v.push((u32::MAX - n + 1, "[start-near-u32-max]"));  // last number u32::MAX: still representable
+    }
+    v
+}
+
+fn eval(c: &Case, rep: &mut Report) {
+    let n = c.objects.len() as u64;
+    let mut nums: Vec<u64> = c.objects.iter().map(|(id, _)| id.0 as u64).collect();
+    nums.sort_unstable();
+    let nontrivial = n > 0 && nums != (0..n).map(|i| c.start as u64 + i).collect::<Vec<_>>();
+    rep.case(nontrivial);
+    let fails = check_case(c);
+    if !fails.is_empty() {
+        let input = case_json(c);
+        for (ob, d) in fails { rep.fail(&ob, d.clone(), input.clone(), d); }
+    }
+}
+
+fn run_block(b: &Block, templates: &[Template], subs: &[SubB], ext_subs: &[SubB], starts_a: &[u32]) -> Report {
+    let mut rep = Report::new("", false);
+    match b {
+        Block::A { t, idset, perm, extreme } => {
+            let tp = &templates[*t];
+            let n = tp.objs.len();
+            let base = id_set(*idset, n);
+            let dang = dangling_for(&base);
+            let ids: Vec<ObjectId> = perm.iter().map(|p| base[*p]).collect();
+            let tag0 = id_set_tag(*idset, n);
+            let starts: Vec<(u32, String)> = if *extreme { extreme_starts(n).into_iter().map(|(s, t)| (s, format!("{}{}", tag0, t))).collect() } else { starts_a.iter().map(|s| (*s, tag0.to_string())).collect() };
+            for (start, tag) in &starts {
+                for bm in 0..tp.bookmark_sets.len() {
+                    let c = instantiate(tp, bm, &ids, &dang, *start, tag);
+                    eval(&c, &mut rep);
+                    if *idset == 1 && bm == 1 && *start == 2 && perm.first() == Some(&(n - 1)) && perm.last() == Some(&0) && perm.windows(2).all(|w| w[0] > w[1]) { rep.sample(format!("{}: {}", tp.label, describe(&c))); }
+                }
+            }
+        }
+        Block::B { sub, code } | Block::E { sub, code } => {
+            let extreme = matches!(b, Block::E { .. });
+            let sb = if extreme { &ext_subs[*sub] } else { &subs[*sub] };
+            let n = sb.n;
+            for rot in &sb.rots {
+                for tr in &sb.trailers {
+                    let tp = graph_template(sb, *code, *rot, *tr);
+                    for idset in &sb.idsets {
+                        let base = id_set(*idset, n);
+                        let dang = dangling_for(&base);
+                        let tag0 = id_set_tag(*idset, n);
+                        for perm in sb.perms() {
+                            let ids: Vec<ObjectId> = perm.iter().map(|p| base[*p]).collect();
+                            let starts: Vec<(u32, String)> = if extreme { extreme_starts(n).into_iter().map(|(s, t)| (s, format!("{}{}", tag0, t))).collect() } else { sb.starts.iter().map(|s| (*s, tag0.to_string())).collect() };
+                            for (start, tag) in &starts {
+                                for bm in &sb.bms {
+                                    let c = instantiate(&tp, *bm, &ids, &dang, *start, tag);
+                                    eval(&c, &mut rep);
+                                }
+                            }
+                        }
+                    }
+                }
+            }
+        }
+    }
+    rep
+}
+
+pub fn run(thorough: bool) -> Report {
+    let templates = page_templates(thorough);
+    let subs = sub_families(thorough);
+    let starts_a: Vec<u32> = if thorough { vec![1, 2, 3, 7, 100] } else { vec![1, 2, 7] };
+    // extreme starts: graphs of 0..2 objects (one reference position), every page-tree template of at most 4 objects
+    let ext_subs: Vec<SubB> = (0..=2).map(|n| SubB { n, two_pos: n == 1, ndang: 1, all_perms: true, idsets: vec![0, 1], starts: vec![], rots: vec![0], trailers: vec![0, 3], bms: vec![0, 1] }).collect();
+
+    let mut blocks: Vec<Block> = vec![];
+    for (si, sb) in ext_subs.iter().enumerate() { for code in 0..sb.codes() { blocks.push(Block::E { sub: si, code }); } }
+    for (ti, tp) in templates.iter().enumerate() {
+        if tp.objs.len() <= 4 { for idset in 0..2 { for perm in permutations(tp.objs.len()) { blocks.push(Block::A { t: ti, idset, perm, extreme: true }); } } }
+    }
+    for (si, sb) in subs.iter().enumerate() { for code in 0..sb.codes() { blocks.push(Block::B { sub: si, code }); } }
+    for (ti, tp) in templates.iter().enumerate() {
+        for idset in 0..3 { for perm in permutations(tp.objs.len()) { blocks.push(Block::A { t: ti, idset, perm, extreme: false }); } }
+    }
+
+    let total = blocks
+        .par_iter()
+        .map(|b| run_block(b, &templates, &subs, &ext_subs, &starts_a))
+        .reduce(|| Report::new("", false), |mut x, y| { x.merge(y); x });
+
+    let mut bound = String::new();
+    bound.push_str("Every case = a concrete document + start value; renumber_objects_with(start) (renumber_objects for start 1) run on the real crate and checked against an independent renaming-discovery oracle. ");
+    bound.push_str(&format!("Family A (page trees): {} templates [", templates.len()));
+    bound.push_str(&templates.iter().map(|t| format!("{} ({} objs)", t.label, t.objs.len())).collect::<Vec<_>>().join("; "));
+    bound.push_str(&format!("] x ALL slot->id permutations x 3 id sets (dense 1..n gen 0 | sparse 2,3,5,8,9,12,13 with gens 0,1,0,0,2,0,1 | (1,0),(3,0),(3,1),(4,0),(6,0),(6,1),(7,0): two objects per number, tagged [same-number-gens]) x starts {:?} x bookmark sets {{none, one per page in page order + one dangling, nested chain in reverse page order, (0,0)-parent with a child per page + second bookmark on page 1}}. ", starts_a));
+    bound.push_str("Family B (general graphs; object i is container kind (i+rotation) mod 5 of {dict, array with nested array, stream with nested dict, dict/array/dict nesting, bare reference}; dangling ids = smallest free number, an existing number with a wrong generation; trailer shapes 0 Root, 1 Root+Info->last, 2 Root+Info->dangling, 3 Root+direct array with ref and nested dangling ref; bookmark sets 0 none, 1 one per object + dangling child): ");
+    bound.push_str(&subs.iter().map(|s| s.describe()).collect::<Vec<_>>().join(" | "));
+    bound.push_str(". Extreme starts (tagged): start 0, u32::MAX-n, u32::MAX-n+1 (and 5, u32::MAX for the empty document) on all graphs of 0..2 objects (1 dangling id, trailers 0 and 3, id sets 0,1, both bookmark sets) and all page-tree templates of <= 4 objects (id sets 0,1, all permutations, all bookmark sets). ");
+    bound.push_str("Structures are at most 7 objects, nesting depth <= 4, bookmark trees acyclic, so no case can hang or overflow the stack; every library call and the oracle run under catch_unwind.");
+    let mut rep = Report::new(&bound, true);
+    rep.merge(total);
+    rep.obligations = 14;
+    rep
+}
+
+pub fn replay(v: &Value) -> Result<(), String> {
+    let c = case_from_json(v);
+    let fails = check_case(&c);
+    if fails.is_empty() { Ok(()) } else { Err(fails.iter().map(|f| format!("{}: {}", f.0, f.1)).collect::<Vec<_>>().join(" || ")) }
 }
